@@ -639,3 +639,25 @@ Definition roundtrip_ok TL pf sf (m : module) : bool :=
   match asm_assemble TL sf (disasm_module TL pf m) with AOk m' => same_csf m m' | AErr _ _ => false end.
 Definition roundtrip_err TL pf sf (m : module) : option (N * N) :=
   match asm_assemble TL sf (disasm_module TL pf m) with AOk _ => None | AErr c l => Some (c, l) end.
+
+(* ---------------------------------------------------------------- the fast evaluation of the hypothesis is the hypothesis *)
+Lemma forallb_map_nth {A} (g : A -> list bool) k (l : list A) :
+  forallb (fun r => nth k r true) (map g l) = forallb (fun x => nth k (g x) true) l.
+Proof. induction l as [|x l IH]; [reflexivity|]. cbn [map forallb]. rewrite IH. reflexivity. Qed.
+Lemma fold_map_labels TL (m : module) fs :
+  fold_right (fun c a => lenN (fn_labels TL c) + a) 0 (map (code_of m) fs) =
+  fold_right (fun f a => lenN (fn_labels TL (code_of m f)) + a) 0 fs.
+Proof. induction fs as [|f fs IH]; [reflexivity|]. cbn [map fold_right]. rewrite IH. reflexivity. Qed.
+
+Lemma wf_conjuncts_fast_eq TL good m : wf_conjuncts_fast TL good m = wf_conjuncts TL good m.
+Proof.
+  unfold wf_conjuncts_fast, wf_conjuncts. cbv zeta. rewrite !map_map, !forallb_map_nth, fold_map_labels.
+  unfold wf_code_decodes, wf_code_targets, wf_code_boundaries, wf_code_patches, wf_code_f64, wf_label_total, all_codes.
+  assert (E : forall k (chk : list byte -> bool), (forall c, nth k (code_checks TL good c) true = chk c) ->
+              forallb (fun x => nth k (code_checks TL good (code_of m x)) true) (m_funcs m) = forallb (fun f => chk (code_of m f)) (m_funcs m)).
+  { intros k chk H. induction (m_funcs m) as [|f fs IH]; [reflexivity|]. cbn [forallb]. rewrite H, IH. reflexivity. }
+  rewrite (E 0%nat (code_decodes TL)), (E 1%nat (code_targets TL)), (E 2%nat (code_boundaries TL)), (E 3%nat (code_patches TL)),
+          (E 4%nat (code_f64 TL good)); [reflexivity| | | | |];
+    intros c; unfold code_checks, code_decodes, code_targets, code_boundaries, code_patches, code_f64, on_code; cbv zeta;
+    destruct (decode_all TL (length c) c 0); reflexivity.
+Qed.
